@@ -247,6 +247,8 @@ package fun
 //@   ensures atmost: calls(wf) <= old(calls(wf)) + (n > 0 ? n : 0)
 //@   ensures attempted: result != nil ==> calls(wf) > old(calls(wf))
 //@   loop 1 invariant 0 <= i && i <= (n > 0 ? n : 0) && calls(wf) == old(calls(wf)) + i && (err != nil ==> i > 0)
+//@   loop 1 invariant forall k: int :: old(calls(wf)) <= k && k < calls(wf) ==> callret0(wf, k) != nil && !errIs(callret0(wf, k), context_Canceled) && !errIs(callret0(wf, k), context_DeadlineExceeded) && (errIs(callret0(wf, k), ErrIteratorSkip) || (!errIs(callret0(wf, k), io_EOF) && !errIs(callret0(wf, k), ers_ErrCurrentOpAbort)))
+//@   ensures stops: forall k: int :: old(calls(wf)) <= k && k < calls(wf) - 1 ==> callret0(wf, k) != nil && !errIs(callret0(wf, k), context_Canceled) && !errIs(callret0(wf, k), context_DeadlineExceeded) && (errIs(callret0(wf, k), ErrIteratorSkip) || (!errIs(callret0(wf, k), io_EOF) && !errIs(callret0(wf, k), ers_ErrCurrentOpAbort)))
 
 // PreHook: the hook runs (exactly once) before the worker; PostHook: the hook
 // runs exactly once after the worker returned.
@@ -609,6 +611,7 @@ package fun
 //@ func (Worker).merge$1
 //@   props C15
 //@   option calls-after next wf
+//@   option calls-when next !done(ctx)
 //@   requires wf != nil && next != nil && wf != next && ctx != nil
 //@   ensures first: calls(wf) + calls(next) >= old(calls(wf) + calls(next)) + 1
 //@   ensures failed: callret0(wf, old(calls(wf))) != nil && wf != next ==> result == callret0(wf, old(calls(wf)))
@@ -618,5 +621,6 @@ package fun
 //@ func (Operation).merge$1
 //@   props C15
 //@   option calls-after next wf
+//@   option calls-when next !done(ctx)
 //@   requires wf != nil && next != nil && wf != next && ctx != nil
 //@   ensures calls(wf) == old(calls(wf)) + 1 && calls(next) >= old(calls(next)) && calls(next) <= old(calls(next)) + 1
